@@ -4,7 +4,11 @@ func {{ .Name }}({{ range .Args }}{{ .Name }} {{ .TypeRef }}, {{ end }}) {{ .Ret
 {{- if .ReturnIsStruct }}
 	{{- range .Args }}
 		{{- if .FieldName }}
-			{{ $.ReturnVarName }}.{{ .FieldName }} = {{ if isAlias .FieldType }}{{ fullName .FieldType }}({{ end }}{{ .Name }}{{ if isAlias .FieldType }}){{ end }}
+			{{- if isAlias .FieldType }}
+			{{ aliasFieldCode $.ReturnVarName $.ReturnTypePkg . }}
+			{{- else }}
+			{{ $.ReturnVarName }}.{{ .FieldName }} = {{ .Name }}
+			{{- end }}
 		{{- end }}
 	{{- end }}
 {{- end }}
